@@ -54,11 +54,13 @@ import (
 	"testing"
 	"time"
 
+	sdkErr "github.com/aliyun/alibaba-cloud-sdk-go/sdk/errors"
 	"github.com/aliyun/alibaba-cloud-sdk-go/services/vpc"
 	"k8s.io/apimachinery/pkg/util/wait"
 	"pgregory.net/rapid"
 
 	"github.com/AliyunContainerService/terway/pkg/aliyun/client"
+	apiErr "github.com/AliyunContainerService/terway/pkg/aliyun/client/errors"
 	"github.com/AliyunContainerService/terway/pkg/aliyun/metadata"
 	"github.com/AliyunContainerService/terway/pkg/backoff"
 	vswpool "github.com/AliyunContainerService/terway/pkg/vswitch"
@@ -72,6 +74,7 @@ type c07fFault struct {
 	API   string `json:"api,omitempty"`   // create|attach|describe|assign|unassign|detach|delete ("" = none)
 	Mode  string `json:"mode,omitempty"`  // before | after (effect applied, error returned) | partial (assign: fewer addresses, no error)
 	Times int    `json:"times,omitempty"` // invocations that fail (0 = every one)
+	Code  string `json:"code,omitempty"`  // error code of the injected OpenAPI error ("" = an error without a code)
 	// metadata level
 	Meta  string `json:"meta,omitempty"`  // hide (new addresses never listed) | lag (listed after N polls) | err (403 for N requests, 0 = always) | ghost (removed addresses still listed) | cancel (factory context cancelled right after the OpenAPI effect)
 	MetaN int    `json:"metaN,omitempty"` // hide/ghost: how many addresses; lag: polls; err: requests
@@ -83,6 +86,10 @@ type c07fOp struct {
 	Count int       `json:"count,omitempty"`
 	V6    int       `json:"v6,omitempty"`   // create: ipv6 count
 	Pick  []int     `json:"pick,omitempty"` // unassign: indices into the addresses the pool holds on that interface
+	// delete: the detach is asynchronous; the interface stays Detaching until that many
+	// delete requests have been refused with InvalidOperation.InvalidEniState (0 = the
+	// detach completes within the factory's pause)
+	DetachBusy int `json:"detachBusy,omitempty"`
 	Fault c07fFault `json:"fault,omitempty"`
 }
 
@@ -116,6 +123,13 @@ func c07fGenFault(t *rapid.T, kind string, allowSlow bool) c07fFault {
 			f.Mode = "partial"
 		}
 		f.Times = rapid.SampledFrom([]int{1, 0}).Draw(t, "times")
+		// codes the client package knows; InvalidEniState is what ECS answers to a delete
+		// of an interface that is not Available yet - a refusal, so only before effect
+		codes := []string{"", apiErr.ErrInternalError, apiErr.ErrThrottling, apiErr.ErrOperationConflict, apiErr.ErrForbidden}
+		if f.Mode == "before" && (f.API == "delete" || f.API == "detach") {
+			codes = append(codes, apiErr.ErrInvalidENIState, apiErr.ErrInvalidENIState)
+		}
+		f.Code = rapid.SampledFrom(codes).Draw(t, "code")
 	case 2, 3: // metadata fault
 		switch kind {
 		case "assign4", "assign6", "create":
@@ -153,7 +167,7 @@ func c07fGen(t *rapid.T) c07fScenario {
 			o := c07fOp{}
 			o.Kind = rapid.SampledFrom([]string{"assign4", "assign4", "assign6", "unassign4", "create", "unassign6", "assign4", "delete"}).Draw(t, "kind")
 			if o.Kind == "delete" {
-				if deletes > 1 {
+				if deletes > 2 {
 					o.Kind = "assign4"
 				}
 				deletes++
@@ -165,6 +179,9 @@ func c07fGen(t *rapid.T) c07fScenario {
 			}
 			if strings.HasPrefix(o.Kind, "unassign") {
 				o.Pick = rapid.SliceOfN(rapid.IntRange(0, 5), 1, 2).Draw(t, "pick")
+			}
+			if o.Kind == "delete" {
+				o.DetachBusy = rapid.SampledFrom([]int{0, 1, 0, 2}).Draw(t, "detachBusy")
 			}
 			o.Fault = c07fGenFault(t, o.Kind, slowLeft > 0)
 			if o.Fault.Meta == "hide" || o.Fault.Meta == "ghost" || (o.Fault.Meta == "err" && o.Fault.MetaN == 0) {
@@ -188,6 +205,7 @@ type c07fENI struct {
 	hide     map[netip.Addr]int // polls during which the address is not listed (-1 = never listed)
 	ghost    map[netip.Addr]int // removed addresses still listed for that many polls (-1 = always)
 	errPolls int                // address list requests answered 403 (-1 = always)
+	busy     int                // Detaching: delete requests still to be refused
 }
 
 type c07fCloud struct {
@@ -202,6 +220,7 @@ type c07fCloud struct {
 	nextIP   int
 	nextENI  int
 	fault    c07fFault
+	detachBusy int
 	calls    map[string]int // invocations per OpenAPI method during the current factory call
 	cancel   context.CancelFunc
 	excused  map[string]bool // ids/addresses gained by an OpenAPI call that answered an error after its effect
@@ -214,7 +233,19 @@ var (
 	c07fServerOnce sync.Once
 )
 
-var errC07fInjected = errors.New("c07f: injected OpenAPI error (InternalError)")
+var errC07fInjected = errors.New("c07f: injected OpenAPI error")
+
+func c07fCoded(code, msg string) error {
+	return apiErr.WarpError(sdkErr.NewServerError(400, fmt.Sprintf(`{"Code":"%s","Message":"%s"}`, code, msg), ""))
+}
+
+// injected is the error of the current fault plan. Caller holds c.mu.
+func (c *c07fCloud) injected() error {
+	if c.fault.Code == "" {
+		return errC07fInjected
+	}
+	return c07fCoded(c.fault.Code, "injected")
+}
 
 func (c *c07fCloud) newMAC() string {
 	n := c07fMACCounter.Add(1)
@@ -259,7 +290,7 @@ func (c *c07fCloud) CreateNetworkInterface(_ context.Context, opts ...client.Cre
 	mode := c.failNow("create")
 	if mode == "before" {
 		c.tr("OpenAPI CreateNetworkInterface -> error before effect")
-		return nil, errC07fInjected
+		return nil, c.injected()
 	}
 	c.nextENI++
 	e := &c07fENI{id: fmt.Sprintf("eni-n%d-%d", c.node, c.nextENI), mac: c.newMAC(), status: client.ENIStatusAvailable,
@@ -283,7 +314,7 @@ func (c *c07fCloud) CreateNetworkInterface(_ context.Context, opts ...client.Cre
 	if mode == "after" {
 		c.excused[e.id] = true
 		c.tr("OpenAPI CreateNetworkInterface -> created %s, answered an error", e.id)
-		return nil, errC07fInjected
+		return nil, c.injected()
 	}
 	if c.fault.Meta == "hide" {
 		for i, a := range append(append([]netip.Addr(nil), e.v4...), e.v6...) {
@@ -325,7 +356,7 @@ func (c *c07fCloud) AttachNetworkInterface(_ context.Context, opts ...client.Att
 	mode := c.failNow("attach")
 	if mode == "before" {
 		c.tr("OpenAPI AttachNetworkInterface -> error before effect")
-		return errC07fInjected
+		return c.injected()
 	}
 	if o.NetworkInterfaceID == nil || c.enis[*o.NetworkInterfaceID] == nil {
 		return fmt.Errorf("InvalidEniId.NotFound")
@@ -334,7 +365,7 @@ func (c *c07fCloud) AttachNetworkInterface(_ context.Context, opts ...client.Att
 	e.attached, e.status = true, client.ENIStatusInUse
 	if mode == "after" {
 		c.tr("OpenAPI AttachNetworkInterface(%s) -> attached, answered an error", e.id)
-		return errC07fInjected
+		return c.injected()
 	}
 	if c.fault.Meta == "cancel" && c.cancel != nil {
 		c.tr("factory context cancelled after attach")
@@ -349,7 +380,7 @@ func (c *c07fCloud) DescribeNetworkInterface(_ context.Context, _ string, ids []
 	defer c.mu.Unlock()
 	if c.failNow("describe") != "" {
 		c.tr("OpenAPI DescribeNetworkInterface -> error")
-		return nil, errC07fInjected
+		return nil, c.injected()
 	}
 	var out []*client.NetworkInterface
 	for _, id := range ids {
@@ -366,7 +397,7 @@ func (c *c07fCloud) assign(api string, eniID string, count int, v6 bool) ([]neti
 	mode := c.failNow("assign")
 	if mode == "before" {
 		c.tr("OpenAPI %s -> error before effect", api)
-		return nil, errC07fInjected
+		return nil, c.injected()
 	}
 	e := c.enis[eniID]
 	if e == nil {
@@ -392,7 +423,7 @@ func (c *c07fCloud) assign(api string, eniID string, count int, v6 bool) ([]neti
 			c.excused[a.String()] = true
 		}
 		c.tr("OpenAPI %s(%s) -> assigned %v, answered an error", api, eniID, out)
-		return nil, errC07fInjected
+		return nil, c.injected()
 	}
 	switch c.fault.Meta {
 	case "hide":
@@ -442,7 +473,7 @@ func (c *c07fCloud) unassign(api, eniID string, ips []netip.Addr, v6 bool) error
 	mode := c.failNow("unassign")
 	if mode == "before" {
 		c.tr("OpenAPI %s -> error before effect", api)
-		return errC07fInjected
+		return c.injected()
 	}
 	e := c.enis[eniID]
 	if e == nil {
@@ -485,7 +516,7 @@ func (c *c07fCloud) unassign(api, eniID string, ips []netip.Addr, v6 bool) error
 	}
 	if mode == "after" {
 		c.tr("OpenAPI %s(%s, %v) -> removed, answered an error", api, eniID, ips)
-		return errC07fInjected
+		return c.injected()
 	}
 	if c.fault.Meta == "cancel" && c.cancel != nil {
 		c.tr("factory context cancelled after the unassign took effect")
@@ -509,14 +540,19 @@ func (c *c07fCloud) DetachNetworkInterface(_ context.Context, eniID, _, _ string
 	mode := c.failNow("detach")
 	if mode == "before" {
 		c.tr("OpenAPI DetachNetworkInterface -> error before effect")
-		return errC07fInjected
+		return c.injected()
 	}
-	if e := c.enis[eniID]; e != nil {
+	// an interface that is gone: the real client's detach tolerates InvalidEniId.NotFound
+	if e := c.enis[eniID]; e != nil && e.attached {
 		e.attached, e.status = false, client.ENIStatusAvailable
+		if c.detachBusy > 0 {
+			// asynchronous detach that outlasts the factory's pause
+			e.status, e.busy = "Detaching", c.detachBusy
+		}
 	}
 	if mode == "after" {
 		c.tr("OpenAPI DetachNetworkInterface(%s) -> detached, answered an error", eniID)
-		return errC07fInjected
+		return c.injected()
 	}
 	c.tr("OpenAPI DetachNetworkInterface(%s) ok", eniID)
 	return nil
@@ -528,18 +564,31 @@ func (c *c07fCloud) DeleteNetworkInterface(_ context.Context, eniID string) erro
 	mode := c.failNow("delete")
 	if mode == "before" {
 		c.tr("OpenAPI DeleteNetworkInterface -> error before effect")
-		return errC07fInjected
+		return c.injected()
 	}
-	if e := c.enis[eniID]; e != nil {
-		if e.attached {
-			return fmt.Errorf("InvalidOperation.DetachPrimaryEniFailed: %s is attached", eniID)
+	e := c.enis[eniID]
+	if e == nil {
+		// as ECS answers for an interface that does not exist (any more)
+		c.tr("OpenAPI DeleteNetworkInterface(%s) -> InvalidEniId.NotFound (it is gone)", eniID)
+		return c07fCoded(apiErr.ErrInvalidENINotFound, eniID+" does not exist")
+	}
+	if e.attached {
+		return c07fCoded(apiErr.ErrInvalidENIState, eniID+" is attached")
+	}
+	if e.status == "Detaching" {
+		// as ECS answers while the interface is not Available yet: nothing happens
+		e.busy--
+		if e.busy <= 0 {
+			e.status = client.ENIStatusAvailable
 		}
-		c07fRegistry.Delete(e.mac)
-		delete(c.enis, eniID)
+		c.tr("OpenAPI DeleteNetworkInterface(%s) -> refused, InvalidOperation.InvalidEniState (still detaching)", eniID)
+		return c07fCoded(apiErr.ErrInvalidENIState, eniID+" is detaching")
 	}
+	c07fRegistry.Delete(e.mac)
+	delete(c.enis, eniID)
 	if mode == "after" {
 		c.tr("OpenAPI DeleteNetworkInterface(%s) -> deleted, answered an error", eniID)
-		return errC07fInjected
+		return c.injected()
 	}
 	c.tr("OpenAPI DeleteNetworkInterface(%s) ok", eniID)
 	return nil
@@ -829,7 +878,7 @@ func c07fRunNode(idx int, nd c07fNode) (res c07fNodeResult) {
 
 	for oi, op := range nd.Ops {
 		cloud.mu.Lock()
-		cloud.fault, cloud.calls = op.Fault, map[string]int{}
+		cloud.fault, cloud.calls, cloud.detachBusy = op.Fault, map[string]int{}, op.DetachBusy
 		cloud.mu.Unlock()
 		before := c07fSnapshot(cloud)
 		if op.Fault.API != "" || op.Fault.Meta != "" {
@@ -1022,7 +1071,10 @@ func c07fRunNode(idx int, nd c07fNode) (res c07fNodeResult) {
 			l := ledger[op.ENI%len(ledger)]
 			// Local only deletes an interface it has put into statusDeleting
 			l.deleting = true
-			what = fmt.Sprintf("op %d DeleteNetworkInterface(%s) fault=%+v", oi, l.id, op.Fault)
+			what = fmt.Sprintf("op %d DeleteNetworkInterface(%s) detachBusy=%d fault=%+v", oi, l.id, op.DetachBusy, op.Fault)
+			if op.DetachBusy > 0 {
+				label("delete:slow-detach")
+			}
 			err := f.DeleteNetworkInterface(l.id)
 			tr("%s -> err=%v (%.1fs)", what, err, time.Since(t0).Seconds())
 			flushAPI()
